@@ -7,6 +7,7 @@ open PP
 
 def handlers : List (List Sexp → Option Sexp) :=
   [ Driver.lineColHandle,
+    Driver.pyStrHandle,
     Driver.parseHandle,
     Driver.diagramHandle,
     Driver.trimArityHandle,
